@@ -177,6 +177,25 @@ def Chain.render {α} (t : Table) (cfg : RenderCfg) : Chain α → List Nat → 
     (sa ++ spaces n ++ ((t[o]?).map (·.repr)).getD [] ++ sr, sp)
 end
 
+/-! ### operator listings (C03)
+
+  `opsAll`: every operator occurring in the text (upper bound of a listing).
+  `opsVar`: every operator applied to a variable-dependent operand (lower bound of a listing). -/
+
+mutual
+/-- (binary operators, unary operators) occurring anywhere -/
+def Atom.opsAll {α} : Atom α → List Nat × List Nat
+  | .lit _ _ => ([], [])
+  | .var _ _ => ([], [])
+  | .const _ => ([], [])
+  | .par c => c.opsAll
+  | .call o a b => (o :: (a.opsAll.1 ++ b.opsAll.1), a.opsAll.2 ++ b.opsAll.2)
+  | .un u a => (a.opsAll.1, u :: a.opsAll.2)
+def Chain.opsAll {α} : Chain α → List Nat × List Nat
+  | .single a => a.opsAll
+  | .cons a o rest => (o :: (a.opsAll.1 ++ rest.opsAll.1), a.opsAll.2 ++ rest.opsAll.2)
+end
+
 /-! ### tables whose printed expressions lex unambiguously (hypothesis of C12)
 
   The printer of deep expressions writes a binary operator name directly in front of `{`, `(`,
